@@ -12,7 +12,7 @@ PROPERTY = 'C06'
 LEVEL = 'exploration'
 RULE = ('mixed_rank_graph on a 3-row frame for every column set of 1..6 columns (every label position, every plain / " AND_REL " naming pattern of the other '
         'columns), one family per size 7..40 x every label position, x target-only/pairwise x heuristic {MI-numba-randomized, MI-numba-3mr, Constant} x every cap '
-        'from 1 to #candidates+1; plus one 150-column 3MR frame that exercises the 10^4 clamp; sequence differential over <= 3 successive batches with DIFFERENT column sets in one process state. Oracle on triplet_scores: mirror multiplicity, subset / equality '
+        'from 1 to #candidates+1; column-name sets whose hyphen/space joins coincide or that contain the label\'s name; plus one 150-column 3MR frame that exercises the 10^4 clamp; sequence differential over <= 3 successive batches with DIFFERENT column sets in one process state. Oracle on triplet_scores: mirror multiplicity, subset / equality '
         'with the specified pair set, cap respected, names are columns. distinct_nontrivial = (column set, mode, heuristic, cap) cases with >= 3 columns')
 ASSUMPTIONS = ['candidate lists may contain a pair twice (the diagonal in pairwise mode): the oracle is on sets of pairs and on mirror multiplicity only',
                'when the cap is smaller than the candidate list only "at most cap, at least one, subset of the specified set" is required']
@@ -141,6 +141,7 @@ def _clamp(_):
     return st
 
 
+NAME_SETS = [['user', 'user-type', 'type-id', 'id', 'label'], ['label', 'a-b', 'a', 'b', 'a-b-c', 'c'], ['xlabel', 'label2', 'label', 'la'], ['a AND b', 'b', 'a', 'label', 'a AND b AND c']]
 SEQ_SETS = [(['a', 'b', 'label'], 'label'), (['label', 'c'], 'label'), (['a', 'r0 AND_REL q0', 'label', 'b'], 'label'), (['d', 'label', 'a', 'e', 'b'], 'label'), (['label'], 'label'),
             (['a', 'y', 'label'], 'label'), (['a', 'y', 'label'], 'y'), (['a', 'r0 AND_REL q0', 'y', 'label'], 'y')]   # same layout ranked against another label column
 
@@ -188,6 +189,7 @@ def run(ctx):
             big.append(col_names(n, lpos, 0b1001 if n % 2 else 0))
     jobs = [('sets', sets[i::48]) for i in range(48)] + [('sets', big[i::32]) for i in range(32)] + [('clamp', None)]
     jobs += [('seqdiff', (h, pw)) for h in HEUR for pw in (False, True)]
+    jobs.append(('sets', NAME_SETS))
     for st in pmap(_dispatch, [j for j in jobs if j[0] in ('clamp', 'seqdiff') or j[1]]):
         ctx.stats.merge(st)
     ctx.extra['small_column_sets'] = len(sets)
